@@ -395,7 +395,7 @@ def search_rename(ctx: Ctx) -> SearchResult:
 	corpus_findings = len(res.findings)   # the cap on shrinking below counts generated findings only
 
 	# 2. generated programs × adversarial renamings
-	n_prog = ctx.scale(28, 110)
+	n_prog = ctx.scale(24, 110)
 	per_prog = ctx.scale(3, 5)
 	deadline = Deadline(ctx, 50, 480)
 	for n_done, (origin, src, tag) in enumerate(program_stream(ctx, rng, n_prog)):
@@ -411,12 +411,23 @@ def search_rename(ctx: Ctx) -> SearchResult:
 			continue
 		idents = set(c08gen.IDENT_RE.findall(src))
 		ties = c08gen.structural_peers(src)
+		try:
+			pairs = c08gen.meeting_pairs(src)
+		except Exception:  # noqa: BLE001
+			pairs = []
 		for j in range(per_prog):
 			# first renaming of a program renames everything; the second and third build their new names from OTHER identifiers of the same
 			# kind (prefix + existing, existing + suffix: Box.Item -> Box.BoxItem, CRIMSON -> DARK_RED); the rest are free
 			related = j in (1, 2)
 			how = len(domain) if j == 0 else (rng.choice([1, 1, 2, 3]) if related else None)
-			mapping = c08gen.make_renaming(rng, domain, idents, reserved, how, related=related, ties=ties)
+			mapping = {}
+			if j == 2 and pairs:
+				# one identifier of every kind of MEETING pair renamed into a spelling related to its partner (prefix / suffix / infix / case / joined)
+				mapping, _ = c08gen.pair_renaming(rng, pairs, domain, idents, reserved, rng.randrange(c08gen.PAIR_COMBOS))
+				if mapping:
+					hist['renaming:related-to-a-meeting-partner'] += 1
+			if not mapping:
+				mapping = c08gen.make_renaming(rng, domain, idents, reserved, how, related=related, ties=ties)
 			if not mapping:
 				continue
 			assert legal_renaming(src, mapping, reserved), mapping
@@ -509,13 +520,63 @@ def search_rename(ctx: Ctx) -> SearchResult:
 					res.findings.append(f)
 			elif isinstance(r, tuple):
 				hist['violations-not-shrunk(findings already reported)'] += 1
+	# 4. meeting pairs: programs in which user identifiers stand where tranp may hold two names against each other (outer variable x
+	#    variable first assigned in a nested block, lambda / closure parameter x captured variable, loop variable x outer variable,
+	#    parameter x local, function x local, class x member, member x member); every shape of relation in both directions
+	pair_deadline = Deadline(ctx, 25, 240)
+	pair_findings = 0
+	n_pair_prog = ctx.scale(2, 12)
+	for n_done in range(n_pair_prog):
+		if pair_deadline.cut(hist, n_done, n_pair_prog):
+			break
+		prng = random.Random(rng.getrandbits(48))
+		src = c08gen.generate_pairs_program(prng, avoid)
+		base = real.observe(src)
+		if base['error'] is not None:
+			hist[f"pairs:P-not-observed:{base['error']}"] += 1
+			continue
+		try:
+			domain = c08gen.renaming_domain(src, reserved)
+			pairs = c08gen.meeting_pairs(src)
+		except Exception:  # noqa: BLE001
+			continue
+		idents = set(c08gen.IDENT_RE.findall(src))
+		for combo in range(c08gen.PAIR_COMBOS):
+			mapping, tags = c08gen.pair_renaming(prng, pairs, domain, idents, reserved, combo)
+			if not mapping or not legal_renaming(src, mapping, reserved):
+				hist['pairs:no-legal-renaming'] += 1
+				continue
+			res.cases += 1
+			seen.add(f'{hash(src)}:{sorted(mapping.items())}')
+			for t in tags:
+				hist[f"pair:{t.split(':')[0]}"] += 1
+			hist[f"pair-shape:{tags[0].split(':', 1)[1]}"] += 1
+			r = check_pair(real, src, mapping, base)
+			if isinstance(r, tuple) and pair_findings < 2:
+				again = Real(ctx)
+				if not isinstance(check_pair(again, src, mapping), tuple):
+					ctx.notes.append(f'pairs#{n_done}: disagreement not reproduced on a fresh App (session history) — not reported here (C04)')
+					continue
+				f = finding_of(again, src, mapping, again.observe(src), f'pairs#{n_done}')
+				tag_of = dict(zip(mapping, tags))
+				small_tags = sorted({tag_of.get(x, 'several').rsplit(':', 1)[0] for x in f.replay['renaming']})
+				f.key = f"name-pair:{'+'.join(small_tags)}:{f.key.rsplit(':', 1)[-1]}"
+				f.what = 'an identifier renamed into a spelling related to another identifier it meets (' + ', '.join(small_tags) + '): ' + f.what
+				pair_findings += 1
+				if f.key not in found_keys:
+					found_keys.add(f.key)
+					res.findings.append(f)
+			elif isinstance(r, tuple):
+				hist['violations-not-shrunk(findings already reported)'] += 1
 	res.distinct = len(seen)
 	res.histogram = dict(hist)
 	res.note = ('programs: nests (module names, classes, class vars, fields, methods, class methods, properties, nested classes, inheritance, enums, '
 		'functions, closures, flow-scoped locals with sibling re-declaration, comprehensions) + gen_prog; renamings injective, into names that are not '
 		'keyword/builtin/tranp-reserved (c08gen.Reserved), same underscore class, not occurring in P; domain excludes names the emitter can produce itself and data-string words; '
 		'member-spelling programs: one user class whose methods / field are iterated by for statements and comprehensions, called and assigned, renamed INTO every word set of '
-		'Generated/C08Names.lean (items/keys/values, list / dict / str method names, cvar verbs, name / value) — library names are reserved for everything but members')
+		'Generated/C08Names.lean (items/keys/values, list / dict / str method names, cvar verbs, name / value) — library names are reserved for everything but members; '
+		'meeting-pair programs: outer variables declared before variables first assigned in nested if / for / while blocks, loop variables, lambdas and a closure with parameters beside '
+		'captured variables, a class with several members — one identifier of every kind of pair renamed into a proper prefix / suffix / infix / case variant / joined form of (or from) its partner, all 18 shape x direction combinations per program')
 	return res
 
 
